@@ -417,6 +417,12 @@ def format_specs(f):
             if n.format_spec is not None:
                 spec = ''.join(str(c.value) for c in n.format_spec.values if isinstance(c, ast.Constant))
             out.append((spec, n))
+        if isinstance(n, ast.Call) and isinstance(n.func, ast.Attribute) and n.func.attr == 'strftime' and len(n.args) == 1 and isinstance(n.args[0], ast.Constant) \
+                and isinstance(n.args[0].value, str):
+            from .c18x import STRFTIME_WIDTH
+            for d_ in re.findall(r'%(.)', n.args[0].value):
+                # a strftime directive is a zero-filled field of fixed width (or not a fixed-width field at all)
+                out.append(('0%dd' % STRFTIME_WIDTH[d_] if d_ in STRFTIME_WIDTH else 'strftime %' + d_, n))
     return out
 
 
